@@ -1,9 +1,9 @@
 SPECIFICATION Spec
 CONSTANTS
   Callers = {"a", "b", "k"}
-  Shape <- Shape_await_want
+  Shape <- Shape_send_kill
   QCap = 2
-  Dev = {}
+  Dev = {"fetch_ignores_cancel"}
 INVARIANTS AfterDeleted KillIsComplete
-PROPERTIES Returns LoopNeverStuck HelpersEnd
+PROPERTIES HelpersEnd
 CHECK_DEADLOCK FALSE
